@@ -37,3 +37,19 @@ Theorem C15_loop_discarded : forall p d ti m a st t,
   (length (path_of_value (tlv_value t)) <= PATH_CAPACITY)%nat ->
   handle_announce p d ti m a = Ok (p, d, [rd_lock; wr_lock]).
 Proof. exact loop_discarded. Qed.
+
+(** C15_main: for every valid set-up and EVERY valid event list the COMPLETE
+    oracle ok_C15 accepts the model's own trace: a master port's Announce carries
+    exactly the path-trace TLV (own identity appended, when enabled and fitting)
+    followed by the FIFO prefix of the offered TLVs that fits, the parent's only,
+    PATH_TRACE consumed but not forwarded when path trace is on, and decodes with
+    the library's own parser within the maximum size; a received Announce hands
+    on all its propagating TLVs, unmodified, in order, tagged with the sender, or
+    none; from the parent they are handed on unless the path-trace rule discards
+    the message (then nothing changes), and the path is taken over; no other call
+    (any handler, timer, BMCA) forwards a TLV. *)
+From SV Require Import Port.MainC15.
+Theorem C15_main : forall s es rel,
+  setup_valid s -> Forall event_valid es ->
+  exists i o, init s = Ok (i, o) /\ ok_C15 (mkCase s es rel (Some o) (run i es)) = true.
+Proof. exact ok_C15_model. Qed.
